@@ -241,7 +241,7 @@ def real_criteria_for(expr, ens):
     return K.CanonicalCriteria()
 
 
-def build_simulation(scn, logfile=None, criteria="scripted", extra_kw=None):
+def build_simulation(scn, logfile=None, criteria="scripted", extra_kw=None, prebuilt_moves=None):
     """Build atoms + driver + table from a scenario description. Returns (mc, atoms, info)."""
     from quansino.mc import canonical, gcmc, isobaric, isotension
 
@@ -275,7 +275,10 @@ def build_simulation(scn, logfile=None, criteria="scripted", extra_kw=None):
         cache = {}
         crits = []
         for i, e in enumerate(scn["entries"]):
-            mv = S.build_move(e, {}, shared=(cache if scn.get("share_disp") else None))
+            if prebuilt_moves is not None:
+                mv = prebuilt_moves[i]  # move objects that already served another simulation
+            else:
+                mv = S.build_move(e, {}, shared=(cache if scn.get("share_disp") else None))
             cr = ScriptedCriteria() if criteria == "scripted" else real_criteria_for(e, ens)
             kwm = {}
             if scn.get("table"):
@@ -288,7 +291,7 @@ def build_simulation(scn, logfile=None, criteria="scripted", extra_kw=None):
             first = list(mc.moves)[scn["alias_of"]]
             mc.add_move(mc.moves[first].move, criteria=cr, name=(scn["names"][len(scn["entries"])] if scn.get("names") else f"e{len(scn['entries'])}"))
             crits.append(cr)
-    info = {"criteria": crits, "calc_params": params}
+    info = {"criteria": crits, "calc_params": params, "moves": [mc.moves[n].move for n in list(mc.moves)[: len(scn["entries"])]]}
     if ens == "GrandCanonical":
         info["template"], info["template_before"] = template, template_before
     return mc, atoms, info
@@ -540,6 +543,33 @@ class MCMachine(HistoryMachine):
         names = self.entry_names()
         self.labels.add("multi-cycle")
         self._run_step([(names[e % len(names)], o, d, 0) for e, o, d in plan])
+
+    @rule(what=st.sampled_from(["momenta", "positions", "cell"]), which=st.integers(0, 10), vec=st.lists(st.sampled_from([-0.07, -0.02, 0.0, 0.03, 0.05, 0.11]), min_size=3, max_size=3))
+    def external_edit(self, what, which, vec):
+        """The user changes the atoms between two run calls (every trial of this machine is its own `irun(1)`):
+        the state 'before the next trial' is then the edited one.  Only machines that opt in (EXTERNAL_EDITS)."""
+        if self.dead or self.mc is None or not getattr(self, "EXTERNAL_EDITS", False) or len(self.atoms) == 0:
+            return
+        self.log.append({"rule": "external_edit", "args": {"what": what, "which": which, "vec": vec}})
+        v = np.array(vec, dtype=float)
+        i = which % len(self.atoms)
+        with warnings.catch_warnings():
+            warnings.simplefilter("ignore")
+            if what == "momenta":
+                p = self.atoms.get_momenta() + 0.0
+                p[i] += 10.0 * v
+                self.atoms.set_momenta(p)
+            elif what == "positions":
+                q = self.atoms.get_positions()
+                q[i] += v
+                self.atoms.set_positions(q)
+            elif self.scn["ensemble"] in ("Isobaric", "Isotension"):
+                c = self.atoms.cell.array.copy()
+                c[i % 3] *= 1.0 + v[0]
+                self.atoms.set_cell(c, scale_atoms=False)
+            else:
+                return
+        self.labels.add("external-edit:" + what)
 
     @rule(entry=st.integers(0, 3), which=st.integers(0, 10), k=st.integers(0, 1000), what=st.sampled_from(["displace", "delete", "add"]))
     def preselect(self, entry, which, k, what):
